@@ -64,7 +64,7 @@ func (f *Pairlis) Call(s *slip.Scope, args slip.List, depth int) slip.Object {
 	}
 	alist := make(slip.List, len(keys))
 	for i, key := range keys {
-		alist[i] = slip.List{key, slip.Tail{Value: values[i]}}
+		alist[i] = slip.Cons(key, values[i])
 	}
 	if 2 < len(args) {
 		var tail slip.List
